@@ -17,9 +17,12 @@ EXTENDS Naturals, Integers, Sequences, FiniteSets, TLC, Json, PipeProps, PipeCfg
 CONSTANTS
   NSet, Heights, NrowSet, Strategies, LevelSet, HdrSet, FootSet, SrcSet, PlaceSet,
   TitleSet, SublineSet, NewPageSet, PbRowSet, PbHdrSet, DivSet,
+  FontSet, SizeSet, PaperSet, PgHFSet, PFSet, PLSet, BFSet, BLSet, UTSet, UBSet,
+  NDataSet, GPosSet, RelWSet, HdrWSet,
   ReserveDefaultHeader,   \* TRUE: auto-populated header row is reserved
   BudgetContinuation,     \* TRUE: continuation headings at the top of a page are budgeted
-  ChargeRenderedOnly      \* TRUE: only headings that are rendered are charged, once
+  ChargeRenderedOnly,     \* TRUE: only headings that are rendered are charged, once
+  BorderByPage            \* TRUE: the closing border goes to the table row that really ends the page
 
 VARIABLES cfg, d, phase, i, page, fill, pageOf, out
 vars == <<cfg, d, phase, i, page, fill, pageOf, out>>
@@ -30,21 +33,24 @@ vars == <<cfg, d, phase, i, page, fill, pageOf, out>>
 Cfg0 == [strat |-> "plain", n |-> 0, h |-> <<>>, nlev |-> 1, chg |-> <<>>, schg |-> <<>>, div |-> FALSE,
          newpage |-> FALSE, pbrow |-> "column", pbhdr |-> TRUE, nrow |-> 1, hdr |-> "none",
          foot |-> "none", src |-> "none", ptitle |-> "all", pfoot |-> "last", psrc |-> "last",
-         title |-> FALSE, subline |-> FALSE]
+         title |-> FALSE, subline |-> FALSE,
+         font |-> 1, size |-> 9, paper |-> "letter", pghf |-> 0,
+         pagefirst |-> "double", pagelast |-> "double", bodyfirst |-> "single", bodylast |-> "single",
+         utop |-> "", ubot |-> "", ndata |-> 2, gpos |-> "first", relwk |-> "equal", hdrw |-> FALSE]
 
 \* change vectors: chg[r] \in 0..nlev is the outermost page_by level that changes at row r
 ChgVecs(n, L) == IF n = 0 THEN {<<>>} ELSE {[r \in 1..n |-> IF r = 1 THEN 1 ELSE f[r]] : f \in [1..n -> 0..L]}
 BoolVecs(n) == IF n = 0 THEN {<<>>} ELSE {[r \in 1..n |-> IF r = 1 THEN TRUE ELSE f[r]] : f \in [1..n -> BOOLEAN]}
 ConstVec(n, v) == [r \in 1..n |-> v]
 
-NDims == 19
+NDims == 33
 Dim(k, c) ==
   CASE k = 1  -> <<"strat", Strategies>>
     [] k = 2  -> <<"n", NSet>>
-    [] k = 3  -> <<"h", [1..c.n -> Heights]>>
+    [] k = 3  -> <<"h", {}>>        \* vector dimension, picked row by row (ElemDom)
     [] k = 4  -> <<"nlev", IF HasPB(c) THEN LevelSet ELSE {1}>>
-    [] k = 5  -> <<"chg", IF HasPB(c) THEN ChgVecs(c.n, c.nlev) ELSE {ConstVec(c.n, 0)}>>
-    [] k = 6  -> <<"schg", IF HasSub(c) THEN BoolVecs(c.n) ELSE {ConstVec(c.n, FALSE)}>>
+    [] k = 5  -> <<"chg", {}>>      \* vector dimension
+    [] k = 6  -> <<"schg", {}>>     \* vector dimension
     [] k = 7  -> <<"div", IF HasPB(c) THEN DivSet ELSE {FALSE}>>
     [] k = 8  -> <<"newpage", IF HasPB(c) THEN NewPageSet ELSE {FALSE}>>
     [] k = 9  -> <<"pbrow", IF HasPB(c) /\ c.newpage THEN PbRowSet ELSE {"column"}>>
@@ -58,6 +64,20 @@ Dim(k, c) ==
     [] k = 17 -> <<"psrc", IF c.src = "none" THEN {"last"} ELSE PlaceSet>>
     [] k = 18 -> <<"title", TitleSet>>
     [] k = 19 -> <<"subline", SublineSet>>
+    [] k = 20 -> <<"font", FontSet>>
+    [] k = 21 -> <<"size", SizeSet>>
+    [] k = 22 -> <<"paper", PaperSet>>
+    [] k = 23 -> <<"pghf", PgHFSet>>
+    [] k = 24 -> <<"pagefirst", PFSet>>
+    [] k = 25 -> <<"pagelast", PLSet>>
+    [] k = 26 -> <<"bodyfirst", BFSet>>
+    [] k = 27 -> <<"bodylast", BLSet>>
+    [] k = 28 -> <<"utop", UTSet>>
+    [] k = 29 -> <<"ubot", UBSet>>
+    [] k = 30 -> <<"ndata", NDataSet>>
+    [] k = 31 -> <<"gpos", GPosSet>>
+    [] k = 32 -> <<"relwk", RelWSet>>
+    [] k = 33 -> <<"hdrw", IF c.hdr \in {"explicit", "explicit2"} THEN HdrWSet ELSE {FALSE}>>
 
 ---------------------------------------------------------------------------
 (* paginate: calculate_row_metadata + _assign_pages, as implemented         *)
@@ -91,9 +111,21 @@ TopHeads(c, r) == IF BudgetContinuation /\ ChargeRenderedOnly /\ Spanning(c) /\ 
 Init == /\ cfg = Cfg0 /\ d = 1 /\ phase = "pick"
         /\ i = 1 /\ page = 1 /\ fill = 0 /\ pageOf = <<>> /\ out = <<>>
 
+\* vector dimensions (one value per row) are picked one row per step, so that -simulate can
+\* draw long tables without enumerating the set of all vectors
+IsVec(k) == k \in {3, 5, 6}
+ElemDom(k, c) ==
+  CASE k = 3 -> Heights
+    [] k = 5 -> IF Len(c.chg) = 0 THEN {1} ELSE IF HasPB(c) THEN 0..c.nlev ELSE {0}
+    [] k = 6 -> IF Len(c.schg) = 0 THEN {TRUE} ELSE IF HasSub(c) THEN BOOLEAN ELSE {FALSE}
 Pick == /\ phase = "pick" /\ d <= NDims
-        /\ \E v \in Dim(d, cfg)[2] : cfg' = [cfg EXCEPT ![Dim(d, cfg)[1]] = v]
-        /\ d' = d + 1
+        /\ IF IsVec(d)
+           THEN LET f == Dim(d, cfg)[1] IN
+                  IF Len(cfg[f]) >= cfg.n
+                  THEN cfg' = cfg /\ d' = d + 1
+                  ELSE \E v \in ElemDom(d, cfg) : cfg' = [cfg EXCEPT ![f] = Append(@, v)] /\ d' = d
+           ELSE /\ \E v \in Dim(d, cfg)[2] : cfg' = [cfg EXCEPT ![Dim(d, cfg)[1]] = v]
+                /\ d' = d + 1
         /\ UNCHANGED <<phase, i, page, fill, pageOf, out>>
 StartAssign == /\ phase = "pick" /\ d > NDims /\ phase' = "assign"
                /\ UNCHANGED <<cfg, d, i, page, fill, pageOf, out>>
@@ -113,13 +145,34 @@ Break == /\ phase = "assign" /\ i <= cfg.n /\ NeedBreak
 ---------------------------------------------------------------------------
 P == IF cfg.n = 0 THEN 1 ELSE pageOf[cfg.n]
 RowsOf(p) == SelectSeq([k \in 1..cfg.n |-> k], LAMBDA k : pageOf[k] = p)
-Ev(k, p, r, lv, val, wt) == [k |-> k, p |-> p, r |-> r, lv |-> lv, val |-> val, wt |-> wt, est |-> wt, tag |-> r]
+Ev(k, p, r, lv, val, wt) == [k |-> k, p |-> p, r |-> r, lv |-> lv, val |-> val, wt |-> wt, est |-> wt, tag |-> r,
+                            top |-> <<"">>, bot |-> <<"">>, lft |-> <<"single">>, rgt |-> <<"single">>]
+B(e, t, b) == [e EXCEPT !.top = <<t>>, !.bot = <<b>>]
+
+\* ---- borders: PageFeatureProcessor._apply_pagination_borders, as implemented ----
+FootOn(c, p) == c.foot # "none" /\ Show(c.pfoot, p, P)
+SrcOn(c, p) == c.src # "none" /\ Show(c.psrc, p, P)
+FootTblLast(c) == c.foot = "table" /\ c.pfoot \in {"last", "all"}
+SrcTblLast(c) == c.src = "table" /\ c.psrc \in {"last", "all"}
+\* which component receives the closing border (_apply_footnote_source_borders)
+Target(c, p) == IF SrcOn(c, p) /\ c.src = "table" THEN "src"
+                ELSE IF FootOn(c, p) /\ c.foot = "table" THEN "foot" ELSE "nobody"
+TableOn(c, p) == (FootOn(c, p) /\ c.foot = "table") \/ (SrcOn(c, p) /\ c.src = "table")
+Bottom(c, p) ==
+  IF c.n = 0 THEN <<"nobody", "">>     \* empty table: the border pass returns before touching anything
+  ELSE IF BorderByPage
+  THEN <<IF TableOn(c, p) THEN Target(c, p) ELSE "data", IF p < P THEN c.bodylast ELSE c.pagelast>>
+  ELSE IF p < P
+       THEN IF ~(FootOn(c, p) \/ SrcOn(c, p)) THEN <<"data", c.bodylast>> ELSE <<Target(c, p), c.bodylast>>
+       ELSE IF ~(FootTblLast(c) \/ SrcTblLast(c)) THEN <<"data", c.pagelast>> ELSE <<Target(c, p), c.pagelast>>
+DataTopB(c, p, first) == IF ~first THEN c.utop ELSE IF p = 1 /\ c.hdr = "none" THEN c.pagefirst ELSE c.bodyfirst
+DataBotB(c, p, last) == IF last /\ Bottom(c, p)[1] = "data" THEN Bottom(c, p)[2] ELSE c.ubot
 
 RECURSIVE HeadEvents(_, _, _, _)
 \* spanning rows for levels from..nlev of row r (dividers skipped)
 HeadEvents(c, p, r, from) ==
   IF from > c.nlev THEN <<>>
-  ELSE (IF PbText(c, from, r) = "-----" THEN <<>> ELSE << Ev("head", p, 0, from, PbText(c, from, r), 1) >>)
+  ELSE (IF PbText(c, from, r) = "-----" THEN <<>> ELSE << B(Ev("head", p, 0, from, PbText(c, from, r), 1), c.utop, c.ubot) >>)
        \o HeadEvents(c, p, r, from + 1)
 RECURSIVE Body(_, _, _, _)
 Body(c, p, rows, first) ==
@@ -128,19 +181,23 @@ Body(c, p, rows, first) ==
            heads == IF ~Spanning(c) THEN <<>>
                     ELSE IF first THEN HeadEvents(c, p, r, 1)
                     ELSE IF c.chg[r] > 0 THEN HeadEvents(c, p, r, c.chg[r]) ELSE <<>>
-       IN heads \o << Ev("data", p, r, 0, "", c.h[r]) >> \o Body(c, p, Tail(rows), FALSE)
+       IN heads \o << B(Ev("data", p, r, 0, "", c.h[r]), DataTopB(c, p, first), DataBotB(c, p, Len(rows) = 1)) >>
+          \o Body(c, p, Tail(rows), FALSE)
 NHdr(c) == CASE c.hdr = "none" -> 0 [] c.hdr = "explicit2" -> 2 [] OTHER -> 1
 Blocks(c, p) ==
      (IF p > 1 THEN << Ev("break", p, 0, 0, "", 0) >> ELSE <<>>)
   \o (IF c.title /\ Show(c.ptitle, p, P) THEN << Ev("title", p, 0, 0, "", 0) >> ELSE <<>>)
   \o (IF c.subline /\ Show(c.ptitle, p, P) THEN << Ev("subline", p, 0, 0, "", 0) >> ELSE <<>>)
   \o (IF HasSub(c) /\ RowsOf(p) # <<>> THEN << Ev("subhead", p, 0, 0, SubText(c, Head(RowsOf(p))), 1) >> ELSE <<>>)
-  \o (IF NHdr(c) > 0 /\ (p = 1 \/ c.pbhdr) THEN [x \in 1..NHdr(c) |-> Ev("colhdr", p, 0, x, "", 1)] ELSE <<>>)
+  \o (IF NHdr(c) > 0 /\ (p = 1 \/ c.pbhdr)
+      THEN [x \in 1..NHdr(c) |-> B(Ev("colhdr", p, 0, x, "", 1), IF p = 1 /\ x = 1 THEN c.pagefirst ELSE "single", "")] ELSE <<>>)
   \o Body(c, p, RowsOf(p), TRUE)
   \o (IF c.foot # "none" /\ Show(c.pfoot, p, P)
-      THEN << Ev(IF c.foot = "table" THEN "foot_t" ELSE "foot_p", p, 0, 0, "", IF c.foot = "table" THEN 1 ELSE 0) >> ELSE <<>>)
+      THEN << IF c.foot = "table" THEN B(Ev("foot_t", p, 0, 0, "", 1), "single", IF Bottom(c, p)[1] = "foot" THEN Bottom(c, p)[2] ELSE "")
+                                  ELSE Ev("foot_p", p, 0, 0, "", 0) >> ELSE <<>>)
   \o (IF c.src # "none" /\ Show(c.psrc, p, P)
-      THEN << Ev(IF c.src = "table" THEN "src_t" ELSE "src_p", p, 0, 0, "", IF c.src = "table" THEN 1 ELSE 0) >> ELSE <<>>)
+      THEN << IF c.src = "table" THEN B(Ev("src_t", p, 0, 0, "", 1), "single", IF Bottom(c, p)[1] = "src" THEN Bottom(c, p)[2] ELSE "")
+                                 ELSE Ev("src_p", p, 0, 0, "", 0) >> ELSE <<>>)
 RECURSIVE Flatten(_, _)
 Flatten(c, p) == IF p > P THEN <<>> ELSE Blocks(c, p) \o Flatten(c, p + 1)
 
@@ -154,7 +211,7 @@ Spec == Init /\ [][Next]_vars
 ---------------------------------------------------------------------------
 (* properties of the model                                                 *)
 ---------------------------------------------------------------------------
-DC == Derive(cfg) @@ [prefixes |-> <<>>]
+DC == Derive(cfg) @@ [prefixes |-> <<>>, uleft |-> "single", uright |-> "single"]
 AllPos(Cl(_, _, _)) == phase = "done" => \A l \in 1..(Len(out) + 1) : Cl(DC, out, l)
 
 M_C02_Order == AllPos(C02_Order)
@@ -174,6 +231,11 @@ M_C05_DividerKeepsRow == AllPos(C05_DividerKeepsRow)
 M_C06_Order == AllPos(C06_Order)
 M_C06_Placement == AllPos(C06_Placement)
 M_C06_ColHdr == AllPos(C06_ColHdr)
+M_C07_DocTop == AllPos(C07_DocTop)
+M_C07_DocBottom == AllPos(C07_DocBottom)
+M_C07_PageBottom == AllPos(C07_PageBottom)
+M_C07_DataTop == AllPos(C07_DataTop)
+M_C07_Interior == AllPos(C07_Interior)
 
 \* online algorithm: the page of a row never depends on later rows (model form of PrefixStable)
 PagesMonotone == [][pageOf' # pageOf => (Len(pageOf') = Len(pageOf) + 1 /\ SubSeq(pageOf', 1, Len(pageOf)) = pageOf)]_vars
